@@ -217,9 +217,10 @@ class PathCtx(object):
                     st = 'failed?'     # model of a quantified problem: candidate only
             else:
                 st = 'unknown'
-            if st != 'failed' and os.environ.get('PYVC_STOP_ON_FAIL'):
+            if st != 'failed' and (os.environ.get('PYVC_STOP_ON_FAIL') or _cli_budget_exhausted()):
                 pass
             elif st != 'failed':
+                _CLI_CALLS[0] += 1
                 smt2 = self.to_smt2(z3.Not(g))
                 r2, who = run_cli_portfolio(smt2)
                 if r2 == 'unsat':
@@ -239,6 +240,11 @@ class PathCtx(object):
             self.assume(g)
         elif os.environ.get('PYVC_STOP_ON_FAIL'):
             raise StopExploration()
+        else:
+            _NOT_DISCHARGED[0] += 1
+            if _NOT_DISCHARGED[0] >= MAX_NOT_DISCHARGED:
+                # enough named obligations of this unit case have failed: stop spending solver time on it
+                raise StopExploration()
         return ob
 
     def cover(self, cid, extra=True):
@@ -325,6 +331,16 @@ def _model_val(m, v):
 
 
 _HAVE = {}
+_CLI_CALLS = [0]
+_NOT_DISCHARGED = [0]
+MAX_NOT_DISCHARGED = int(os.environ.get('PYVC_MAX_NOT_DISCHARGED', '8'))
+CLI_BUDGET = int(os.environ.get('PYVC_CLI_BUDGET', '3'))
+
+
+def _cli_budget_exhausted():
+    """second opinions from the command-line solvers are limited per process (one unit case): code that breaks many obligations at
+    once would otherwise spend 40 s on each of them"""
+    return _CLI_CALLS[0] >= CLI_BUDGET
 
 
 def _have(exe):
